@@ -25,6 +25,8 @@ TARGETS = [
     ("scikit_tt/tensor_train.py", ["diag", "squeeze"], ["C20"], "1500,0"),
 ]
 
+COPY_ONLY = False
+
 CMP = {ast.Gt: [ast.GtE, ast.Lt], ast.GtE: [ast.Gt], ast.Lt: [ast.LtE, ast.Gt], ast.LtE: [ast.Lt],
        ast.Eq: [ast.NotEq], ast.NotEq: [ast.Eq], ast.Is: [ast.IsNot], ast.IsNot: [ast.Is]}
 BIN = {ast.Add: [ast.Sub], ast.Sub: [ast.Add], ast.Mult: [ast.Add]}
@@ -34,6 +36,10 @@ def candidates(fn):
     """Yield (description, mutate(node_copy_root) -> None) for each single-node mutation inside function fn."""
     nodes = [n for n in ast.walk(fn)]
     for idx, n in enumerate(nodes):
+        if COPY_ONLY:
+            if isinstance(n, ast.Call) and isinstance(n.func, ast.Attribute) and n.func.attr == "copy" and not n.args and not n.keywords:
+                yield idx, "drop .copy() @%d" % n.lineno, ("dropcopy", None)
+            continue
         if isinstance(n, ast.Compare) and len(n.ops) == 1 and type(n.ops[0]) in CMP:
             for new in CMP[type(n.ops[0])]:
                 yield idx, "cmp %s->%s @%d" % (type(n.ops[0]).__name__, new.__name__, n.lineno), ("cmp", new)
@@ -46,13 +52,27 @@ def candidates(fn):
             for new in (n.value + 1, n.value - 1):
                 yield idx, "int %d->%d @%d" % (n.value, new, n.lineno), ("const", new)
         elif isinstance(n, (ast.Assign, ast.AugAssign)) or (isinstance(n, ast.Expr) and isinstance(n.value, ast.Call)):
-            yield idx, "delete stmt @%d" % n.lineno, ("delete", None)
+            if not COPY_ONLY:
+                yield idx, "delete stmt @%d" % n.lineno, ("delete", None)
+        if isinstance(n, ast.Call) and isinstance(n.func, ast.Attribute) and n.func.attr == "copy" and not n.args and not n.keywords:
+            yield idx, "drop .copy() @%d" % n.lineno, ("dropcopy", None)
 
 
 def apply(fn_copy, idx, action):
     nodes = [n for n in ast.walk(fn_copy)]
     n = nodes[idx]
     kind, new = action
+    if kind == "dropcopy":
+        # X.copy() -> X : replace the Call node by its receiver everywhere it is referenced
+        for p in ast.walk(fn_copy):
+            for field, val in ast.iter_fields(p):
+                if val is n:
+                    setattr(p, field, n.func.value)
+                    return True
+                if isinstance(val, list) and n in val:
+                    val[val.index(n)] = n.func.value
+                    return True
+        return False
     if kind == "cmp":
         n.ops = [new()]
     elif kind == "bin":
@@ -76,7 +96,7 @@ def mutants_for(relfile, funcs):
     tree = ast.parse(src)
     out = []
     for node in ast.walk(tree):
-        if isinstance(node, ast.FunctionDef) and node.name in funcs:
+        if isinstance(node, ast.FunctionDef) and (funcs is None or node.name in funcs):
             # skip docstring-only differences; enumerate candidates
             for idx, desc, action in candidates(node):
                 out.append((node.name, node.lineno, idx, desc, action))
@@ -127,6 +147,15 @@ def main():
     args = sys.argv[1:]
     jobs_n, mx, only = 4, None, None
     survivors, scale = None, 1
+    global COPY_ONLY, TARGETS
+    if "--copies" in args:
+        # the mutation class C06 is about: every `.copy()` in the library dropped, one at a time, judged by the C06 check
+        COPY_ONLY = True
+        allf = None
+        TARGETS = [(f, allf, ["C06"], "5000,2500") for f in (
+            "scikit_tt/tensor_train.py", "scikit_tt/solvers/sle.py", "scikit_tt/solvers/evp.py", "scikit_tt/solvers/ode.py",
+            "scikit_tt/data_driven/tdmd.py", "scikit_tt/data_driven/regression.py", "scikit_tt/data_driven/tedmd.py",
+            "scikit_tt/models.py", "scikit_tt/slim.py")]
     for i, a in enumerate(args):
         if a == "--survivors-of":       # re-run only the survivors of an earlier run, with a larger budget
             prev = json.load(open(args[i + 1]))
@@ -171,7 +200,8 @@ def main():
     os.makedirs(os.path.join(VERIF, "selftest"), exist_ok=True)
     json.dump({"repo_head": subprocess.run(["git", "-C", REPO, "rev-parse", "--short", "HEAD"], capture_output=True, text=True).stdout.strip(),
                "counts": dict(c), "results": [{"file": r[0], "function": r[1], "mutation": r[2], "outcome": r[3], "by": r[4]} for r in res]},
-              open(os.path.join(VERIF, "selftest", "automutate_last.json" if survivors is None else "automutate_survivors_rerun.json"), "w"), indent=1)
+              open(os.path.join(VERIF, "selftest", ("automutate_copies.json" if COPY_ONLY else "automutate_last.json") if survivors is None
+                                else "automutate_survivors_rerun.json"), "w"), indent=1)
 
 
 if __name__ == "__main__":
